@@ -38,7 +38,8 @@ def body_accept(sel: int) -> bool:
     return True
 
 
-EDITS = ["drop-last", "append-X", "append-x", "append-9", "append-_", "lower", "prefix-X", "swapcase-first", "double-last"]
+EDITS = ["drop-last", "append-X", "append-x", "append-9", "append-_", "lower", "prefix-X", "swapcase-first", "double-last",
+         "registered-on-another-instance"]
 R_REJECT = [len(MODELS), len(EDITS), 2, 2]
 N_REJECT = prod(R_REJECT)
 
@@ -46,7 +47,7 @@ N_REJECT = prod(R_REJECT)
 def _edit(name, e):
     return {"drop-last": name[:-1], "append-X": name + "X", "append-x": name + "x", "append-9": name + "9", "append-_": name + "_",
             "lower": name.lower(), "prefix-X": "X" + name, "swapcase-first": name[0].swapcase() + name[1:],
-            "double-last": name + name[-1]}[e]
+            "double-last": name + name[-1], "registered-on-another-instance": name + "_Q"}[e]
 
 
 def body_reject(sel: int) -> bool:
@@ -61,6 +62,11 @@ def body_reject(sel: int) -> bool:
     for m in MODELS:                      # F14d: model name directly followed by a non-word label character
         if word.startswith(m) and len(word) > len(m) and not re.match(r"\w", word[len(m)]):
             return True
+    if EDITS[ei] == "registered-on-another-instance":
+        # a name registered on one parser instance is not a model name for an independent instance
+        other = parse(f"Decay B0sig\n1.0 pi+ pi- {word} 1.0;\nEnddecay\n", extra_models=(word,))
+        if details(other, "B0sig")[0]["model"] != word:
+            return fail(f"registered name {word!r} not reported verbatim")
     pre = f"ModelAlias {word} SVS;\n" if alias else ""
     text = pre + f"Decay B0sig\n1.0 pi+ pi- {word}{' 1.0 2.0' if params and not alias else ''};\nEnddecay\n"
     try:
